@@ -40,6 +40,7 @@ def run(ctx):
     _shared_r5(ctx)
     _round6(ctx)
     _round7(ctx)
+    _round8(ctx)
 
 
 def _run_main(ctx):
@@ -284,3 +285,11 @@ def _round7(ctx):
                     why='interest, token, buffer and result pass through untouched: the loop above cannot tell a TLS transport from a plain one')
         # with the native-tls feature the nine wrappers exist; without it there is no TLS transport at all
         r.check('wrappers-present', len(present) in (0, 9), None, built=len(present), expected='all nine (feature native-tls) or none')
+
+
+def _round8(ctx):
+    """Rules that are necessary conditions of this property too (found by seeding round 8)."""
+    from rules import arms as A
+    with ctx.rule('R01.15', "no frame is cut off by the end of the loop: the client's Close travels as ConnectionClose (which seals), and a handshake that ends in ServerClosing is done only when the buffer is flushed (shared with C08, C16)", floor=2) as r:
+        A.include(ctx, r, 'c08', 'R08.3', pick=('message-kind',))
+        A.include(ctx, r, 'c16', 'R16.4', pick=('done-table',))
